@@ -12,6 +12,7 @@ import Yomm2.Model.Codec
 import Yomm2.Model.Generator
 import Yomm2.Model.Multi
 import Yomm2.Model.Templates
+import Yomm2.Model.Thunk
 import Yomm2.Spec
 import Yomm2.SpecExec
 import Yomm2.Generated.Constants
